@@ -86,7 +86,8 @@ def make_ops(rng, doc, scratch):
         w = force or rng.choice(['metacomments', 'metacomments_key', 'spine_types', 'monophonic', 'iter', 'measures_count', 'first_measure',
                         'spine_ids', 'header_nodes', 'voices', 'voices_clean', 'graph_stdout', 'graph_file', 'next', 'leaves',
                         'export_options_reuse', 'spine_count', 'dump_file', 'deprecated_export', 'clone_export', 'match_self',
-                        'header_stage', 'deprecated_spine_types', 'tokens_to_encodings', 'partial_iteration'])
+                        'header_stage', 'deprecated_spine_types', 'tokens_to_encodings', 'partial_iteration', 'token_protocol',
+                        'token_protocol'])
         if w == 'dump_file':
             enc = rng.choice(kpx.ENCODINGS)
 
@@ -118,6 +119,29 @@ def make_ops(rng, doc, scratch):
                     warnings.simplefilter('ignore')
                     return kp.export(d, o)
             return (f'export(doc, ExportOptions({sorted(okw)})) [options object compared field by field]', g, ({'options': o}, {'options': o0}))
+        if w == 'token_protocol':
+            # reading a token is reading the document: str / repr / format / export() without arguments / == / hash on the tokens the
+            # queries hand out and on the nodes of the tree (what print(token) or a debugger does)
+            def g(d):
+                out = []
+                toks = d.get_all_tokens()
+                for t_ in toks:
+                    row = []
+                    for f_ in (str, repr, lambda v: format(v), lambda v: v.export(), lambda v: v == v, lambda v: v == toks[0],
+                               lambda v: v != toks[-1], lambda v: hash(v) is not None):
+                        try:
+                            row.append(kpx._RE_ADDR.sub('0x', str(f_(t_))))
+                        except Exception as e_:  # noqa
+                            row.append('raised ' + type(e_).__name__)
+                    out.append(tuple(row))
+                for st in d.tree.stages:
+                    for nd in st:
+                        try:
+                            out.append(RE_ID.sub('#', kpx._RE_ADDR.sub('0x', str(nd))))
+                        except Exception as e_:  # noqa
+                            out.append('raised ' + type(e_).__name__)
+                return out
+            return ('str / repr / format / export() / == / hash of every token; str of every node', g, None)
         if w == 'clone_export':
             return ('dumps(doc.clone())', lambda d: kp.dumps(d.clone()), None)
         if w == 'match_self':
